@@ -23,6 +23,7 @@ var (
 type Transport struct {
 	wsconn      Conn
 	messageType MessageType
+	writeMu     sync.Mutex // serializes Write: one message writer at a time (gorilla allows a single concurrent writer)
 
 	compressConfig   compress.Config
 	writeWindowBuf   *bytes.Buffer
@@ -92,15 +93,20 @@ func (t *Transport) Read() ([]byte, error) {
 
 // Writeは、１メッセージ分のデータを書き込みます。
 func (t *Transport) Write(bs []byte) error {
+	t.writeMu.Lock()
+	defer t.writeMu.Unlock()
 	wr, err := t.wsconn.Writer(t.ctx, MessageBinary)
 	if err != nil {
 		return fmt.Errorf("get writer: %w", err)
 	}
-	defer wr.Close()
 
 	n, err := t.encodeTo(wr, bs)
 	if err != nil {
+		wr.Close()
 		return fmt.Errorf("encode: %w", err)
+	}
+	if err := wr.Close(); err != nil {
+		return fmt.Errorf("close writer: %w", err)
 	}
 	atomic.AddUint64(t.txBytesCounter, uint64(n))
 
